@@ -108,7 +108,7 @@ def run(rep, tier, seed, replay=None):
     if replay and replay.get("input"):
         inputs = [(replay.get("label", "replay"), bytes.fromhex(replay["input"]))]
     else:
-        n = 250 if tier == "quick" else 4000
+        n = 250 if tier == "quick" else 2500
         # valid messages: generated + sample files
         cases, _ = codecrun.gen_cases(ctx, rng, 40 if tier == "quick" else 300, comp_mode=False)
         comp, _ = codecrun.gen_cases(ctx, rng, 20 if tier == "quick" else 150, comp_mode=True)
